@@ -246,20 +246,22 @@ var modelRedirects = map[string]string{
 	"github.com/golang/protobuf/proto.Marshal":        "ProtoMarshal",
 	"github.com/tinylib/msgp/msgp.UnsafeString":       "MsgpUnsafeString",
 	"github.com/cossacklabs/acra/utils.BytesToString": "MsgpUnsafeString",
-	"github.com/golang/protobuf/proto.Unmarshal":      "ProtoUnmarshal",
-	"context.WithValue":                               "WithValue",
-	"context.Background":                              "Background",
-	"context.TODO":                                    "Background",
-	"context.WithCancel":                              "WithCancel",
-	"context.WithTimeout":                             "WithTimeout",
-	"errors.Is":                                       "ErrorsIs",
-	"errors.As":                                       "ErrorsAs",
-	"errors.Unwrap":                                   "ErrorsUnwrap",
-	"fmt.Errorf":                                      "Errorf",
-	"fmt.Sprintf":                                     "Sprintf",
-	"fmt.Sprint":                                      "Sprint",
-	"fmt.Sprintln":                                    "Sprintln",
-	"fmt.Fprintf":                                     "Fprintf",
+	"(*github.com/cossacklabs/acra/keystore/v2/keystore.SerializedKeys).Marshal":   "SerializedKeysMarshal",
+	"(*github.com/cossacklabs/acra/keystore/v2/keystore.SerializedKeys).Unmarshal": "SerializedKeysUnmarshal",
+	"github.com/golang/protobuf/proto.Unmarshal":                                   "ProtoUnmarshal",
+	"context.WithValue":   "WithValue",
+	"context.Background":  "Background",
+	"context.TODO":        "Background",
+	"context.WithCancel":  "WithCancel",
+	"context.WithTimeout": "WithTimeout",
+	"errors.Is":           "ErrorsIs",
+	"errors.As":           "ErrorsAs",
+	"errors.Unwrap":       "ErrorsUnwrap",
+	"fmt.Errorf":          "Errorf",
+	"fmt.Sprintf":         "Sprintf",
+	"fmt.Sprint":          "Sprint",
+	"fmt.Sprintln":        "Sprintln",
+	"fmt.Fprintf":         "Fprintf",
 }
 
 func runHarness(m *interp.Machine, pkg *ssa.Package, fn *ssa.Function, res *HarnessResult, workers, maxPaths int, budget, qtimeout time.Duration, solver string) {
